@@ -62,6 +62,10 @@ func genC12(g *G, n int, out io.Writer) {
 				c.Validations[k].Rule = inner
 			}
 			c.Validations[k].Level = []string{"violation", "warning", "info"}[g.n(3)]
+			if g.coin(0.25) {
+				// any text is a validation name: the report must name the validation as the profile defines it
+				c.Validations[k].Name = fmt.Sprintf("v%d", k) + g.hostile(3)
+			}
 			if g.coin(0.3) {
 				// the message key in its unusual legal forms: absent, null, a number, a boolean, a list - the documented default text applies
 				c.Validations[k].RawMessage = g.pick([]string{"<absent>", "<null>", "~", "null", "404", "true", "[a, b]", "{a: b}", "1.5"})
